@@ -85,6 +85,13 @@ func (c *Ctx) SubRng(name string, i int) *rand.Rand {
 	return rand.New(rand.NewSource(int64(h.Sum64() >> 1)))
 }
 
+// GlobalRng derives a PRNG that is identical in every shard (for building the shared case list).
+func (c *Ctx) GlobalRng(name string, i int) *rand.Rand {
+	h := fnv.New64a()
+	fmt.Fprintf(h, "global/%s/%d/%d", name, i, c.Seed)
+	return rand.New(rand.NewSource(int64(h.Sum64() >> 1)))
+}
+
 // Mine reports whether case index i belongs to this shard.
 func (c *Ctx) Mine(i int) bool { return c.NShards <= 1 || i%c.NShards == c.Shard }
 
